@@ -47,3 +47,37 @@ func VF_C02_handle_stops_at_protocol_error() {
 }
 
 func hNewManagerView(m *Manager) *Manager { return &Manager{CurrentDB: m.DBs[0], DBs: m.DBs} }
+
+// "the offending connection gets an error or is closed": a complete top-level value that is not a command
+// (text that is no RESP value at all, a simple string, an integer, a bulk string) must not be dropped
+// silently - the client would wait for ever for an answer to what it believes was a request. The
+// well-formed command behind it is still served.
+func VF_C02_handle_non_command_request() {
+	m := hNewManager(1)
+	ctx := context.Background()
+	var first []byte
+	switch vfChoice("kind", 4) {
+	case 0:
+		b := vfByte("b") // an "inline" line: one byte that is no type marker and no line terminator
+		vfAssume(b != '*' && b != '$' && b != '+' && b != '-' && b != ':' && b != '\r' && b != '\n')
+		first = []byte{b, 'x', '\r', '\n'}
+	case 1:
+		first = []byte("+PING\r\n")
+	case 2:
+		first = []byte(":1\r\n")
+	default:
+		first = []byte("$4\r\nPING\r\n")
+	}
+	stream := append(first, vfEncode(bs("ping"))...)
+	conn := vfNewConn("P", false)
+	vfSpawn(func() {
+		conn.In <- stream
+		close(conn.In)
+	})
+	m.Handle(ctx, conn)
+	if conn.Closed && len(conn.Log) == 0 {
+		return // refused by closing the connection
+	}
+	vfAssert(len(conn.Log) >= 1 && len(conn.Log[0]) > 0 && conn.Log[0][0] == '-', "request-that-is-no-command-neither-answered-nor-refused")
+	vfAssert(len(conn.Log) == 2 && string(conn.Log[1]) == "+PONG\r\n", "command-behind-a-non-command-request-served")
+}
